@@ -116,8 +116,8 @@ def firstFail (l : List (String × Bool)) : String :=
 
 def pnormVerdict (x : Float) (v : Float) : List (String × Bool) :=
   [("pnorm_range", 0 ≤ v && v ≤ 1),
-   ("pnorm_ends", !(x ≤ -37.5193) || v == 0),
-   ("pnorm_ends", !(x ≥ 8.2924) || v == 1)]
+   ("pnorm_ends", !(x ≤ -(PNorm.lowCut : Float)) || v == 0),
+   ("pnorm_ends", !(x ≥ (PNorm.upCut : Float)) || v == 1)]
 
 def f3? (a b c : String) : Option (Float × Float × Float) :=
   match float? a, float? b, float? c with
